@@ -15,7 +15,8 @@ Inductive op :=
 | OInfo (chain : nat) (name : str)              (* task.run_info and task.log *)
 | OFlags (chain : nat)                          (* is_forced and has_data of every task of a chain *)
 | ORestart
-| OSetFail (slugs : list str).
+| OSetFail (slugs : list str)
+| OReset (chain : nat) (name : str).          (* task.reset_data(): the value held in memory is dropped *)
 
 Record hstate := {
   h_world : Eval.world;
@@ -201,6 +202,13 @@ Section History.
     | OSetFail slugs =>
         ({| h_world := {| w_store := w_store w; w_objs := w_objs w; w_states := w_states w;
                           w_runlog := w_runlog w; w_fail := slugs |}; h_chains := h_chains h |}, ok VNone)
+    | OReset chain name =>
+        match oid_of h chain name with
+        | None => (h, err)
+        | Some id =>
+            ({| h_world := set_state id {| os_mem := None; os_forced := os_forced (state_of w id) |} w;
+                h_chains := h_chains h |}, ok VNone)
+        end
     end.
 
   (* per operation: the outcome, the runs it started, the listing of the data directory after it *)
